@@ -104,7 +104,11 @@ PLANS = {
     "C03": {"level": "model_checking", "runs": simple("core", "asm-default")},
     "C04": {"level": "exploration", "runs": c04_runs, "post": c04_post},
     "C05": {"level": "exploration", "runs": simple("kernels", "default")},
-    "C07": {"level": "exploration", "runs": simple("kernels", "default")},
+    "C07": {"level": "exploration", "runs": lambda tier: [
+        {"engine": "kernels", "cfg": "default", "tag": "kernels"},
+        # the crate's public API with guarded buffers, assembly flavour and Rust/C intrinsics flavour
+        {"engine": "core", "cfg": "asm-default", "tag": "api-asm"},
+        {"engine": "core", "cfg": "intr-default", "tag": "api-intr"}]},
     "C06": {"level": "model_checking", "runs": c06_runs},
     "C08": {"level": "model_checking", "runs": lambda tier: [
         {"engine": "sched", "cfg": "default", "tag": "loom"},
